@@ -14,6 +14,13 @@ package main
 //   func f
 //     uses L1, L2         the same closures are assumed at function entry.
 //
+//   reclimit Name         (top level) unfolds the rec spec function Name only where its applications occur: inside the defining axiom the
+//                         recursive call goes to a twin symbol Name_lim, and  Name_lim(x) == Name(x)  is instantiated only for
+//                         applications Name(x) that already exist (pattern Name(x)). Without it the solver may keep unfolding
+//                         Name(.., n), Name(.., n-1), … for a symbolic n (a matching loop that drowns everything else). Sound: the
+//                         axioms are implied by the unlimited definition with Name_lim := Name. Invariants must mention both
+//                         Name(.., i) and Name(.., i+1) (they normally do, through the loop-carried index).
+//
 //   recframe Name         (top level) adds the congruence ("frame") theorem of the rec spec function Name:
 //                           (forall k <= n, r :: body[H, a, k, r] == body[H', a', k, r])  ==>  Name(H, a, n) == Name(H', a', n)
 //                         where body[.., k, r] is the defining expression with the recursive call replaced by r. It holds by
@@ -33,10 +40,12 @@ var (
 	funcUses     = map[*FuncSpec][]string{}
 	recFramed    = map[string]bool{}
 	recSubst     = map[*FnCtx]map[string]string{} // rec function (SMT name) -> term that replaces its applications (frame axiom construction)
+	recLimited   = map[string]bool{}
+	recRename    = map[*FnCtx]map[string]string{} // rec function (SMT name) -> name used for its recursive calls inside the defining axiom
 )
 
 func init() {
-	clauseKeywords = append(clauseKeywords, "induct", "uses", "pattern", "recframe")
+	clauseKeywords = append(clauseKeywords, "induct", "uses", "pattern", "recframe", "reclimit")
 }
 
 // extClause parses the clauses of this file; called from the default branch of loadFile's clause switch.
@@ -74,6 +83,10 @@ func extClause(word, rest, pkg string, cur *FuncSpec, curLemma *Lemma) (bool, er
 		for _, n := range names() {
 			recFramed[n] = true
 			recFramed[pkg+"."+n] = true
+		}
+	case "reclimit":
+		for _, n := range names() {
+			recLimited[pkg+"."+n] = true
 		}
 	default:
 		return false, nil
@@ -179,6 +192,20 @@ func (eng *Engine) assumeUsed(env *SpecEnv, uses []string, userProps []string, b
 
 // extLemmaBefore: used lemmas and the induction hypothesis, assumed before the requires clauses of lemma l.
 func (eng *Engine) extLemmaBefore(fc *FnCtx, env *SpecEnv, l *Lemma) error {
+	// axioms of the lemma's own package (definitional axioms of its uninterp spec functions) and of the trusted specs hold here
+	// exactly as they do at the entry of a verified function (verifyFunc); lemmaCtx did not assume any before
+	for _, ax := range eng.contracts.Axioms {
+		if ax.Pkg != l.Pkg && !strings.HasSuffix(strings.SplitN(ax.Src, ":", 2)[0], ".spec") {
+			continue
+		}
+		aenv := &SpecEnv{fc: fc, vars: map[string]SV{}, cur: env.cur, old: env.old, pkg: eng.pkgOfSpec(&FuncSpec{Pkg: ax.Pkg})}
+		t, e := aenv.evalBool(ax.E)
+		if e != nil {
+			continue // reported where functions are verified
+		}
+		fc.assumes["axiom: "+ax.Text+" ("+ax.Src+")"] = true
+		fc.assume("true", t)
+	}
 	idx, _ := eng.lemmaIndex(l.Name)
 	if err := eng.assumeUsed(env, lemmaUses[l], l.Props, idx, "lemma "+l.Name); err != nil {
 		return err
@@ -277,9 +304,35 @@ func (e *SpecEnv) extRecFrame(sf *SpecFn, n *SpecEnv, name string, comps []strin
 	}
 	bodyA, callA := side("a")
 	bodyB, callB := side("b")
-	decls = append(decls, "(xn Int)")
-	ax := fmt.Sprintf("(assert (forall (%s) (! (=> (forall ((xk Int) (xr %s)) (=> (<= xk xn) (= %s %s))) (= %s %s)) :pattern (%s %s))))",
+	// the two applications may spell their (equal) last arguments differently (i+1 vs. a wrapped addition): match any pair and
+	// require the equality, instead of relying on the e-graph to have merged the two index terms
+	decls = append(decls, "(xn Int)", "(xm Int)")
+	callB = strings.TrimSuffix(callB, " xn)") + " xm)"
+	ax := fmt.Sprintf("(assert (forall (%s) (! (=> (and (= xn xm) (forall ((xk Int) (xr %s)) (=> (<= xk xn) (= %s %s)))) (= %s %s)) :pattern (%s %s))))",
 		strings.Join(decls, " "), retSort, bodyA, bodyB, callA, callB, callA, callB)
 	fc.ufAxioms[name] += "\n" + ax
 	fc.assumes["rec spec "+sf.Pkg+"."+sf.Name+": congruence (frame) theorem, by induction on its last parameter"] = true
+}
+
+// extRecLimitBegin / extRecLimitEnd bracket the evaluation of the defining axiom of a `reclimit`ed rec function (see the header).
+func (e *SpecEnv) extRecLimitBegin(sf *SpecFn, name string, sorts []string, retSort string) {
+	fc := e.fc
+	if !recLimited[sf.Pkg+"."+sf.Name] {
+		return
+	}
+	fc.eng.declareUF(fc, name+"_lim", sorts, retSort) // declared before name: the axiom rendered after name's declaration mentions it
+	if recRename[fc] == nil {
+		recRename[fc] = map[string]string{}
+	}
+	recRename[fc][name] = name + "_lim"
+}
+
+func (e *SpecEnv) extRecLimitEnd(sf *SpecFn, name, decls, call string) {
+	fc := e.fc
+	if !recLimited[sf.Pkg+"."+sf.Name] {
+		return
+	}
+	delete(recRename[fc], name)
+	lim := "(" + name + "_lim" + strings.TrimPrefix(call, "("+name)
+	fc.ufAxioms[name] += fmt.Sprintf("\n(assert (forall (%s) (! (= %s %s) :pattern (%s))))", decls, lim, call, call)
 }
